@@ -28,7 +28,7 @@ def _strip(res, loose):
 
 # profiles whose trace crosses a Go map-iteration site inside wrgl or whose goroutine interleaving is
 # left to the Go runtime (DESIGN 2.6): verdict and class must be identical, the trace may differ
-LOOSE = {"C05", "C05cli", "C01bf", "C09", "C09f", "C10", "C17w", "C13", "C14", "C03", "C16", "C08", "C12", "C06", "C01cli"}
+LOOSE = {"C05", "C05cli", "C05col", "C09two", "C01bf", "C09", "C09f", "C10", "C17w", "C13", "C14", "C03", "C16", "C08", "C12", "C06", "C01cli"}
 
 
 def determinism(vc, a):
